@@ -1257,9 +1257,21 @@ class Exec:
         L = self.L
         left = self.ev(e.left)
         parts = []
-        for op, rhs in zip(e.ops, e.comparators):
+        first = left
+        all_eq = all(isinstance(o, ast.Eq) for o in e.ops)
+        for k_, (op, rhs) in enumerate(zip(e.ops, e.comparators)):
+            if k_ > 0:
+                # Python evaluates the next operand of a chain only if the comparison so far holds (it may raise)
+                if not self.branch(L.And(*parts)):
+                    return VBool(L.F())
+                parts = []
             right = self.ev(rhs)
-            parts.append(self.lib.compare(self, left, op, right))
+            if all_eq and len(e.ops) > 1 and isinstance(first, VInt) and first.const() is not None:
+                # c == x == y  is  c == x and x == y, which (equality being transitive) is  c == x and c == y:
+                # every operand is compared with the constant, so two symbolic sizes never meet
+                parts.append(self.lib.compare(self, first, op, right))
+            else:
+                parts.append(self.lib.compare(self, left, op, right))
             left = right
         return VBool(L.And(*parts))
 
